@@ -37,6 +37,9 @@ func init() {
 		ruleW1(c, "C05.F7")
 		ruleR3(c, "C05.R3")
 		ruleR6(c, "C05.R6")
+		// what a transaction allocated goes back through PostAbort or stays through PostCommit: every transaction
+		// ends in a terminator (giving the locks back by hand skips both - the numbers stay taken until a restart)
+		ruleL2(c, "C05.F21")
 	}
 }
 
